@@ -223,6 +223,9 @@ matrixSslSessOptsSetServerTlsVersions(sslSessOpts_t *options,
         return PS_ARG_FAIL;
     }
 
+    /* Replace, as the client side twin does: a second call must not keep
+       versions of the first one enabled. */
+    options->supportedVersionsLen = 0;
     for (i = 0, k = 0; i < versionsLen; i++)
     {
         if (!matrixSslTlsVersionRangeSupported(versions[i], versions[i]))
